@@ -31,6 +31,7 @@ import (
 	"time"
 
 	v2 "github.com/hydraide/hydraide/app/core/hydra/swamp/chronicler/v2"
+	"github.com/hydraide/hydraide/app/name"
 	"github.com/hydraide/hydraide/app/server/gateway"
 	"github.com/hydraide/hydraide/app/server/telemetry"
 	hydrapb "github.com/hydraide/hydraide/sdk/go/hydraidego/v3/hydraidepbgo"
@@ -55,8 +56,8 @@ type childSpec struct {
 }
 
 type witness struct {
-	Unit   unit     `json:"unit"`   // replay: this unit is re-run up to and including Idx
-	Idx    int      `json:"idx"`    // -1: batch-level observation
+	Unit   unit     `json:"unit"` // replay: this unit is re-run up to and including Idx
+	Idx    int      `json:"idx"`  // -1: batch-level observation
 	Style  string   `json:"style,omitempty"`
 	Labels []string `json:"labels,omitempty"`
 	Req    string   `json:"request,omitempty"`
@@ -438,8 +439,11 @@ func (b *batchRun) body(bubble bool) {
 		_, _ = gw.Unlock(ctxBG, &hydrapb.UnlockRequest{Key: l[0], LockID: l[1]})
 	}
 	settle()
-	if wr != nil {
-		wr.close()
+	if wr != nil && !wr.close() {
+		anyTimeout = true
+		if b.count {
+			c.Inconclusive("a grpc handler was still running 15 s (wall) after its client had gone: " + b.ri.Name)
+		}
 	}
 	so := r.Zeus.GetSafeops()
 	if !anyTimeout && so.SystemLocked() {
@@ -450,6 +454,24 @@ func (b *batchRun) body(bubble bool) {
 	}
 	for _, p := range sent.Drain("panic") {
 		b.outF = append(b.outF, finding{"background-panic", panicClass(p.Attrs), "a goroutine of the engine panicked after the request had returned: " + short(p.Attrs, 400)})
+	}
+	// a vigil that outlives its request keeps the swamp from ever being closed when idle and
+	// makes every later Destroy of it wait forever
+	if !anyTimeout {
+		for _, nm := range r.Zeus.GetHydra().ListActiveSwamps() {
+			if strings.Count(nm, "/") < 2 {
+				continue
+			}
+			sctx, scancel := context.WithCancel(ctxBG)
+			sw, err := r.Zeus.GetHydra().SummonSwamp(sctx, safeIsland(nm), name.Load(nm))
+			scancel()
+			if err == nil && sw != nil && sw.HasActiveVigils() {
+				b.outF = append(b.outF, finding{"vigil-leak", "active-vigil-after-all-requests-returned", fmt.Sprintf("swamp %q still has an active vigil after every request of the batch has returned: it can never be closed when idle, and a Destroy of it never returns", short(nm, 80))})
+				for i := 0; i < 100000 && sw.HasActiveVigils(); i++ {
+					sw.CeaseVigil() // let this engine stop anyway
+				}
+			}
+		}
 	}
 	if canary0 != "" {
 		if now, err := snapshotCanary(&gw); err != nil {
@@ -693,14 +715,7 @@ func runChild(c *rig.Check, t *testing.T, cat map[string]rpcInfo) {
 			continue
 		}
 		fmt.Printf("C26UNIT %d %s %s %d %d\n", ui, u.Mode, u.RPC, u.From, u.N)
-		t0 := time.Now()
 		runUnit(c, t, ri, u, ui, skip, -1)
-		if p := os.Getenv("C26_TIMELOG"); p != "" { // debugging aid
-			if f, err := os.OpenFile(p, os.O_APPEND|os.O_CREATE|os.O_WRONLY, 0o644); err == nil {
-				fmt.Fprintf(f, "%6.1fs %s %s from %d\n", time.Since(t0).Seconds(), u.Mode, u.RPC, u.From)
-				f.Close()
-			}
-		}
 		fmt.Printf("C26UNITDONE %d\n", ui)
 	}
 	fmt.Println("C26ALLDONE")
